@@ -48,6 +48,6 @@ func init() {
 	c04.RedisCfg = redisCfg
 	c04.RedisCfgFault = redisCfgFault
 	registry["C04"] = entry{run: c04.Run, level: "exploration",
-		rule: "cases = generated packet histories of one publisher over packet ids {1,2,3}: PUBLISH QoS2, retransmission (same id, DUP), PUBREL (also unknown ids), id reuse, QoS1 publishes, connection cut between PUBLISH and PUBREC, reconnects with Clean Start 0/1, v3.1.1/v5, persistent or not, memory and redis unack store, with a concurrent publisher on another session using the same ids; an independent QoS2 subscriber counts deliveries, acks are compared in order behind a PINGREQ barrier. Thorough adds all histories up to length 6 over one id. Non-trivial = at least one retransmission or cut; distinct by scenario.",
+		rule: "cases = generated packet histories of one publisher over packet ids {1,2,3}: PUBLISH QoS2, retransmission (same id, DUP), PUBREL (also unknown ids), id reuse, QoS1 publishes, connection cut between PUBLISH and PUBREC, reconnects with Clean Start 0/1, v3.1.1/v5, persistent or not, memory and redis unack store, with a concurrent publisher on another session using the same ids; an independent QoS2 subscriber counts deliveries, acks are compared in order behind a PINGREQ barrier. Thorough adds all histories up to length 6 over one id. Non-trivial = at least one retransmission or cut; distinct by scenario. Plus fault histories on redis: the HSET of a PUBLISH or the HDEL of a PUBREL is refused, the client resumes and retransmits.",
 		assumptions: []string{"mqttx codec", "per-connection packets are handled sequentially (PINGREQ barrier)", "fakeredis for the redis unack store"}}
 }
